@@ -511,8 +511,8 @@ def run(ctx):
     ctx.rule("C16.ping", "keep-alive bookkeeping", floor=5)
     ctx.assume("environment contract of the dispatcher: after connect() it reports connected or an error; a live connection may close or fail at any time; after disconnect() it reports disconnected; a connect request arrives only while no connection exists; a dispatcher may report the same close twice")
     ctx.assume("timing of the keep-alive and the order of detached deliveries across threads are not decided")
-    rule_inv(ctx)
-    rule_auth(ctx)
-    rule_iface(ctx)
-    rule_reset(ctx)
-    rule_ping(ctx, ctx.tier)
+    ctx.guarded("C16.inv", rule_inv, ctx)
+    ctx.guarded("C16.auth", rule_auth, ctx)
+    ctx.guarded("C16.iface", rule_iface, ctx)
+    ctx.guarded("C16.reset", rule_reset, ctx)
+    ctx.guarded("C16.ping", rule_ping, ctx, ctx.tier)
